@@ -1,7 +1,7 @@
 #!/venv/bin/python
 """Implementation-side worker: runs /repo's telingo in-process on JSON requests (one per line on stdin) and answers one
 JSON line per request.  Started by harness/pool.py with PYTHONPATH=/repo and a fixed PYTHONHASHSEED."""
-import sys, json, os, io, traceback
+import sys, json, os, io, time, traceback
 
 import clingo
 from clingo.ast import ProgramBuilder
@@ -33,7 +33,11 @@ def do_solve(req):
     imax = req.get('imax')
     out = {'models': [], 'results': []}
     msgs = []
-    prg = clingo.Control([str(req.get('limit', 0))] + req.get('args', []), logger=lambda c, m: msgs.append(str(m)), message_limit=20)
+    t0 = time.time()
+    # clasp's equivalence preprocessing is switched off unless the request asks for the default configuration: clasp 5.8.2
+    # loses / duplicates stable models with it on programs telingo produces (findings F10, F14; DESIGN.md section 11)
+    eq = [] if req.get('default_config') else ['--eq=0']
+    prg = clingo.Control([str(req.get('limit', 0))] + eq + req.get('args', []), logger=lambda c, m: msgs.append(str(m)), message_limit=20)
     try:
         with ProgramBuilder(prg) as bld:
             fs, parts = tf.transform(texts, bld.add)
@@ -57,6 +61,7 @@ def do_solve(req):
         return r
     out['status'] = 'ok'
     out['future_sigs'] = [list(x) for x in fs]
+    out['wall'] = round(time.time() - t0, 3)
     return out
 
 
